@@ -323,7 +323,7 @@ def w_poppred(case):
 # ---------------------------------------------------------- coded posterior models
 
 def coded_posterior(n_chains, n_draws, inds, pad=False, offset=0,
-                    pooled_sigma=False):
+                    pooled_sigma=False, draw_first=False):
     """Every entry encodes (parameter, chain, draw, individual). With
     pooled_sigma the error parameter is a population-level variable (chain, draw),
     as in a hierarchical fit with a pooled dimension."""
@@ -348,9 +348,13 @@ def coded_posterior(n_chains, n_draws, inds, pad=False, offset=0,
             arr[:, n_draws, :] = np.nan
         data[n] = (('chain', 'draw', 'individual'), arr)
     nd = n_draws + (1 if pad else 0)
-    return xr.Dataset(data, coords={'chain': list(range(n_chains)),
-                                    'draw': list(range(nd)),
-                                    'individual': list(inds)})
+    ds = xr.Dataset(data, coords={'chain': list(range(n_chains)),
+                                  'draw': list(range(nd)),
+                                  'individual': list(inds)})
+    if draw_first:
+        # the same dataset stored with the draw dimension before the chain dimension
+        ds = ds.transpose('draw', 'chain', 'individual')
+    return ds
 
 
 def decode(v, offset=0):
@@ -378,7 +382,8 @@ def w_posterior(case):
     answers = case['answers']         # one row index per sample
     viol = []
     ds = coded_posterior(nc, nd, inds, pad=case['pad'],
-                         pooled_sigma=case.get('pooled_sigma', False))
+                         pooled_sigma=case.get('pooled_sigma', False),
+                         draw_first=case.get('draw_first', False))
     ppm = chi.PosteriorPredictiveModel(pred_model(1), ds)
     res = []
     for zval in (0.0, 1.0):
@@ -423,6 +428,9 @@ def w_posterior(case):
         a, b = decode(q[0]), decode(sg[0])
         row = answers[s]
         want = {'chain': row // nd, 'draw': row % nd, 'ind': i_ind}
+        if case.get('draw_first'):
+            # (rows are enumerated in storage order: draw-major here)
+            want = {'chain': row % nc, 'draw': row // nc, 'ind': i_ind}
         want_b = dict(want)
         if case.get('pooled_sigma'):
             want_b['ind'] = 9
@@ -725,8 +733,12 @@ def build(tier, seed):
             for ind in ('a', 'b'):
                 for ns in (1, 2):
                     for ans in itertools.product(range(rows), repeat=ns):
-                        for pooled in (False, True):
-                            post.append({'n_chains': nc, 'n_draws': nd,
+                        for pooled, dfirst in ((False, False), (True, False),
+                                               (True, True), (False, True)):
+                            if dfirst and (pad or ns == 2 and nd == 3):
+                                continue
+                            post.append({'draw_first': dfirst,
+                                         'n_chains': nc, 'n_draws': nd,
                                          'inds': ['a', 'b'], 'individual': ind,
                                          'n_samples': ns, 'times': perms[3],
                                          'answers': list(ans), 'pad': pad,
